@@ -664,6 +664,11 @@ class Node:
         else:
             node = factory(child, parent=self, data_id=data_id, node_id=node_id)
 
+        if deep and source_node:
+            # Copy the branch before the new node is linked: the source may
+            # contain the target (i.e. self)
+            node._add_from(source_node)
+
         if before is True:
             before = 0  # prepend
         elif before is False:
@@ -685,9 +690,6 @@ class Node:
             children.insert(idx, node)
         else:
             children.append(node)
-
-        if deep and source_node:
-            node._add_from(source_node)
 
         return node
 
